@@ -155,3 +155,41 @@ theorem u32_shift_suit (w : Nat) : Src.u32.shift_suit w = some (shiftSuit w) := 
     create_graph _ (getCardRank_mem w) _ (nextSuit_mem w), shiftSuit]
 
 end Tie
+
+/-! ## axiom audit (written by tools/tie.py --audit) -/
+#print axioms Tie.lookup_diag
+#print axioms Tie.filterPoints_diag
+#print axioms Tie.contains_congr
+#print axioms Tie.filter_of_list
+#print axioms Tie.u32_filter
+#print axioms Tie.CardNumber_filter
+#print axioms Tie.lookup_none_of_not_mem
+#print axioms Tie.matchTable_eq
+#print axioms Tie.u64_from_ckc
+#print axioms Tie.u32_from_binary_card
+#print axioms Tie.c_filters
+#print axioms Tie.u32_get_rank_flag
+#print axioms Tie.u32_get_rank_bit
+#print axioms Tie.u32_get_rank_prime
+#print axioms Tie.u32_get_suit_flag
+#print axioms Tie.u32_get_suit_bit
+#print axioms Tie.u32_flag_as_pair
+#print axioms Tie.u32_flag_as_trips
+#print axioms Tie.u32_flag_as_quads
+#print axioms Tie.u32_strip_multiples_flags
+#print axioms Tie.u32_is_blank
+#print axioms Tie.rankIdx_lt
+#print axioms Tie.suitIdx_lt
+#print axioms Tie.rankGraphChk_ok
+#print axioms Tie.rank_graph
+#print axioms Tie.u32_get_card_rank
+#print axioms Tie.suit_graph
+#print axioms Tie.u32_get_card_suit
+#print axioms Tie.next_graph
+#print axioms Tie.u32_next_suit
+#print axioms Tie.rankRangeChk_ok
+#print axioms Tie.getCardRank_mem
+#print axioms Tie.nextSuit_range
+#print axioms Tie.nextSuit_mem
+#print axioms Tie.create_graph
+#print axioms Tie.u32_shift_suit
